@@ -454,6 +454,51 @@ def apply_r27(mt, log):
         log.append(('R27', '%s.iter().skip(%s).try_fold(..) => indexed loop over the same closure body' % (recv, n_)))
 
 
+def apply_r33(mt, log):
+    """R33: a match arm `P1 | P2 if G => E` (binding-free patterns: paths / literals) ==> `P1 if G => E, P2 if G => E`
+    (definition of or-patterns; Verus does not take an or-pattern together with a guard)"""
+    pat = r'(?:[A-Za-z_][\w:]*|"(?:[^"\\]|\\.)*")'
+    rx = re.compile(r'(?m)^([ \t]*)(%s(?:\s*\|\s*%s)+)\s+if\s+' % (pat, pat))
+    pos = 0
+    while True:
+        m = rx.search(mt.text, pos)
+        if not m:
+            return
+        msk = mask(mt.text)
+        arrow = msk.find('=>', m.end())
+        if arrow < 0:
+            return
+        guard = mt.text[m.end():arrow].strip()
+        j = arrow + 2
+        while j < len(msk) and msk[j].isspace():
+            j += 1
+        if j < len(msk) and msk[j] == '{':
+            e = match_close(msk, j) + 1
+            if e < len(msk) and msk[e] == ',':
+                e += 1
+        else:
+            d = 0
+            e = j
+            while e < len(msk):
+                c = msk[e]
+                if c in '([{':
+                    d += 1
+                elif c in ')]}':
+                    if d == 0:
+                        break
+                    d -= 1
+                elif c == ',' and d == 0:
+                    e += 1
+                    break
+                e += 1
+        body = mt.text[j:e].rstrip().rstrip(',')
+        alts = [a.strip() for a in re.split(r'\s*\|\s*', m.group(2))]
+        new = '\n'.join('%s%s if %s => %s,' % (m.group(1), a, guard, body) for a in alts)
+        mt.replace(m.start(), e, new)
+        log.append(('R33', 'or-pattern with guard split into %d arms: %s' % (len(alts), ' | '.join(alts))))
+        pos = m.start() + len(new)
+
+
 def name_result(sig, binder):
     """`-> T` ==> `-> (binder: T)` in a fn signature (text up to, not including, the body `{`)."""
     msk = mask(sig)
@@ -1026,6 +1071,7 @@ class Weaver:
             log.append((rid, '%s  =>  %s  (x%d)' % (norm(old), norm(new), cnt)))
         apply_r8(mt, log)
         apply_r27(mt, log)
+        apply_r33(mt, log)
         apply_global_rules(mt, log)
         # All woven text goes in through placeholders that are expanded at the very end, so that loop / closure
         # ordinals and text anchors are resolved on code-only text (post-rewrite), never on woven ghost text.
